@@ -71,6 +71,9 @@ impl<'a> Gen<'a> {
         0 | 1 => self.pick_var(vars, K::Num).unwrap_or_else(|| "1".into()),
         2 => format!("{}", self.rng.below(12)),
         3 => format!("{}.{}", self.rng.below(5), self.rng.below(100)),
+        // long coefficients: sums and products need rounding to 34 digits
+        5 if self.rng.chance(1, 3) => "9999999999999999999999999999999999".to_string(),
+        5 if self.rng.chance(1, 2) => "1234567890123456789012345678901234.5".to_string(),
         4 => "0".into(),
         _ => format!("{}", self.rng.range(-3, 40)),
       };
@@ -93,7 +96,13 @@ impl<'a> Gen<'a> {
         let inner = vars.with(&x, K::Num).with(&y, K::Num);
         format!("(function({}, {}) {})({}: {}, {}: {})", x, y, self.num(d - 1, &inner), y, self.num(d - 1, vars), x, self.num(d - 1, vars))
       }
-      9 => format!("({} / {})", self.num(d - 1, vars), self.rng.pick(&["2", "4", "5", "8", "10", "0.5", "0"])),
+      9 => {
+        if self.rng.chance(1, 2) {
+          format!("({} / {})", self.num(d - 1, vars), self.rng.pick(&["2", "3", "7", "8", "10", "0.5", "0", "0.3"]))
+        } else {
+          format!("({} / {})", self.num(d - 1, vars), self.num(d - 1, vars))
+        }
+      }
       13 => {
         // wrong arity: too few / too many positional arguments, a missing / an extra named one
         let x = self.var("p");
@@ -305,9 +314,7 @@ impl<'a> Gen<'a> {
         // ill-typed on purpose: the error paths
         let a = self.any(d.saturating_sub(1), vars);
         let b = self.any(d.saturating_sub(1), vars);
-        // no `/` here: a non-terminating quotient cannot be computed by the exact-arithmetic
-        // model and its "unsupported" marker could be absorbed by an enclosing comparison
-        let op = *self.rng.pick(&["+", "-", "*", "<", "and", "or", "="]);
+        let op = *self.rng.pick(&["+", "-", "*", "/", "<", "and", "or", "="]);
         format!("({} {} {})", a, op, b)
       }
     }
